@@ -10,7 +10,7 @@ use std::ffi::OsString;
 
 pub static DEF: PropDef = PropDef {
     id: "C09",
-    rule: "random: trees of 1-10 entries with hostile names (blanks, newlines, quotes, backslashes, '{}', leading '-', '$()', glob characters, multi-byte) x one or two -exec/-execdir ... ; actions whose argument templates hold 0-4 arguments with 0-3 '{}' each (alone, embedded in text, adjacent, near-misses '{' '}' '{ }', empty arguments) x scripted exit statuses per invocation (0, 1..255, death by signal) x command {rec recorder, missing name, true/false} x position of the action (plain; '( -exec ; -printf T ) -o -printf F'; negated; behind a -type test; two actions in sequence so that the second runs only where the first succeeded). Run in process and (1 in 8) through the built binary. Oracle: one record per entry on which the action is reached, in visit order and interleaved per file as the evaluation prescribes; argv == template with every {} replaced by the path (./basename for -execdir), byte for byte, one argv element per template argument; cwd == the harness cwd (-exec) or the entry's parent directory (-execdir); truth == (child status 0), observed through labelled -printf output; find's exit status 0 whatever the children do. Non-trivial = (a name contains a shell-special character and some template argument has >= 2 '{}') or a failing child changes the subsequent output. Distinct = distinct case JSON.",
+    rule: "random: trees of 1-10 entries with hostile names (blanks, newlines, quotes, backslashes, '{}', leading '-', '$()', glob characters, multi-byte) x one or two -exec/-execdir ... ; actions whose argument templates hold 0-4 arguments with 0-3 '{}' each (alone, embedded in text, adjacent, near-misses '{' '}' '{ }', empty arguments) x scripted exit statuses per invocation (0, 1..255, death by signal) x command {rec recorder, missing name, true/false} x position of the action (plain; '( -exec ; -printf T ) -o -printf F'; negated; behind a -type test; two actions in sequence so that the second runs only where the first succeeded). Run in process and (1 in 8) through the built binary. A second sub-run uses file names that are not valid UTF-8 (raw bytes 0x80-0xFF in a flat directory) with bare and embedded {} templates. Oracle: one record per entry on which the action is reached, in visit order and interleaved per file as the evaluation prescribes; argv == template with every {} replaced by the path (./basename for -execdir), byte for byte, one argv element per template argument; cwd == the harness cwd (-exec) or the entry's parent directory (-execdir); truth == (child status 0), observed through labelled -printf output; find's exit status 0 whatever the children do. Non-trivial = (a name contains a shell-special character and some template argument has >= 2 '{}') or a failing child changes the subsequent output. Distinct = distinct case JSON.",
     assumptions: &[
         "starting points are spelled c/r or ./c/r (for -execdir the starting point itself is run from its parent as ./r)",
         "the recorder's log and script travel in the environment, not in argv",
@@ -291,11 +291,98 @@ pub fn check(ctx: &mut Ctx, c: &Case) -> Outcome {
         .ok()
 }
 
+// ---- names that are not valid UTF-8 ---------------------------------------------------------
+
+#[derive(Serialize, Deserialize, Debug, Clone)]
+pub struct RawCase {
+    pub names: Vec<Vec<u8>>,
+    pub template: Vec<String>,
+    pub execdir: bool,
+}
+
+fn gen_raw(g: &mut Gen) -> RawCase {
+    let frags: &[&[u8]] = &[b"a", b"b ", b"caf", &[0xe9], &[0xff], &[0xc3, 0xa9], &[0xf0, 0x9f], &[0x80], b"{}", b"-", b"\n", b"x", &[0xfe, 0xff]];
+    let n = g.usize_in(1, 6);
+    let mut names: Vec<Vec<u8>> = vec![];
+    for _ in 0..n {
+        let mut v = vec![];
+        for _ in 0..g.usize_in(1, 4) {
+            v.extend_from_slice(g.pick(frags));
+        }
+        if !names.contains(&v) && v != b"." && v != b".." {
+            names.push(v);
+        }
+    }
+    let mut template = gen_template(g);
+    if !template.iter().any(|t| t.contains("{}")) {
+        template.push(g.pick(&["pre={}", "{}.bak", "<{}|{}>", "{}"]).to_string());
+    }
+    RawCase { names, template, execdir: g.chance(1, 3) }
+}
+
+fn check_raw(ctx: &mut Ctx, c: &RawCase) -> Outcome {
+    use std::os::unix::ffi::OsStrExt;
+    ctx.fresh_case_dir();
+    std::fs::create_dir("c/r").unwrap();
+    for n in &c.names {
+        std::fs::File::create(std::path::Path::new("c/r").join(std::ffi::OsStr::from_bytes(n))).unwrap();
+    }
+    let mut sorted = c.names.clone();
+    sorted.sort();
+    let log = ctx.root.join("rec.log");
+    let _ = std::fs::remove_file(&log);
+    std::env::set_var("VERIF_REC_LOG", &log);
+    std::env::set_var("VERIF_REC_SCRIPT", "");
+    let rec = rec_bin().to_string_lossy().into_owned();
+    let mut args: Vec<&str> = vec!["c/r", "-mindepth", "1", "-sorted", if c.execdir { "-execdir" } else { "-exec" }, &rec];
+    args.extend(c.template.iter().map(|s| s.as_str()));
+    args.push(";");
+    let o = ctx.find(&args);
+    if let Some(p) = o.panic {
+        return fail(format!("C09:panic:{}", p.split(": ").next().unwrap_or("?")), format!("find {args:?}: {p}"));
+    }
+    let got = read_rec_log(&log);
+    let subst = |t: &str, path: &[u8]| -> Vec<u8> {
+        let mut out = vec![];
+        let mut rest = t;
+        while let Some(i) = rest.find("{}") {
+            out.extend_from_slice(rest[..i].as_bytes());
+            out.extend_from_slice(path);
+            rest = &rest[i + 2..];
+        }
+        out.extend_from_slice(rest.as_bytes());
+        out
+    };
+    let want: Vec<Vec<Vec<u8>>> = sorted
+        .iter()
+        .map(|n| {
+            let path: Vec<u8> = if c.execdir { [b"./".as_slice(), n].concat() } else { [b"c/r/".as_slice(), n].concat() };
+            c.template.iter().map(|t| subst(t, &path)).collect()
+        })
+        .collect();
+    let got_args: Vec<Vec<Vec<u8>>> = got.iter().map(|r| r.args.clone()).collect();
+    if got_args != want || o.status != 0 {
+        let kind = if c.execdir { "execdir" } else { "exec" };
+        let embedded = c.template.iter().any(|t| t.contains("{}") && t != "{}");
+        return fail(
+            format!("C09:non-utf8-name:{}:{kind}", if got_args.len() != want.len() { "number-of-runs" } else if embedded { "embedded-braces" } else { "bare-braces" }),
+            format!("find {args:?} over names {:?}\nexit {} stderr {:?}\nexpected argv lists (lossy) {:?}\nobserved {:?}", c.names.iter().map(|n| lossy(n)).collect::<Vec<_>>(), o.status, lossy(&o.stderr), want.iter().map(|r| r.iter().map(|a| lossy(a)).collect::<Vec<_>>()).collect::<Vec<_>>(), got_args.iter().map(|r| r.iter().map(|a| lossy(a)).collect::<Vec<_>>()).collect::<Vec<_>>()),
+        );
+    }
+    let invalid = c.names.iter().any(|n| std::str::from_utf8(n).is_err());
+    Pass::new(invalid && c.template.iter().any(|t| t.contains("{}") && t != "{}")).class_if(invalid, "non-utf8-name").class_if(c.execdir, "execdir").ok()
+}
+
 fn run(w: &mut Worker) {
     w.regress::<Case>("exec", check);
+    w.regress::<RawCase>("rawnames", check_raw);
+    w.random("rawnames", w.tier.pick(4_000, 50_000), (30, 80), 300, gen_raw, check_raw);
     w.random("exec", w.tier.pick(24_000, 300_000), (60, 300), 600, gen_case, check);
 }
 
-fn replay(w: &mut Worker, _sub: &str, v: Value) -> Outcome {
+fn replay(w: &mut Worker, sub: &str, v: Value) -> Outcome {
+    if sub == "rawnames" {
+        return check_raw(&mut w.ctx, &decode(v));
+    }
     check(&mut w.ctx, &decode(v))
 }
